@@ -14,7 +14,7 @@ CHECKS = {
         'text': 'Condition-variable discipline on both queue classes, on every path of every instantiation: predicate-form waits '
                 'under queueListMutex; the wait predicate formula is equivalent to what the property states (truth table over its atoms); '
                 'every write that can enable the predicate is made under the waiters\' mutex and followed by notify; '
-                'DisableQueueNotify ctor/dtor balanced and sole writers; every queue constructor starts queueNotifyCounter at a constant zero. A violation of any clause yields a schedule with a lost wake-up.',
+                'DisableQueueNotify ctor/dtor balanced and sole writers; every queue constructor starts queueNotifyCounter at a constant zero; the silent put-back of processIf/processUntil lies inside an in-dispatch guard entered before the take, and that counter (read by the wait predicate) is written only by its RAII guard. A violation of any clause yields a schedule with a lost wake-up.',
         'note': COMMON_NOTE + 'Not decided: liveness under fair scheduling, notify_one vs many waiters, timing of waitFor.',
         'technique': 'lockset + dominance over clang CFG, predicate formula extraction with truth-table implication, call-graph notify-after rule',
     },
@@ -31,7 +31,7 @@ CHECKS['C06'] = {
 }
 CHECKS['C11'] = {
     'text': 'emptyQueue() formula and evaluation order (list before counter), CounterGuard entered before every take that is followed by '
-            'user code and held over dispatch and put-back, CounterGuard balanced and sole writer of queueEmptyCounter, '
+            'user code and held over dispatch and put-back (also a put-back made by the destructor of a local helper object), CounterGuard balanced and sole writer of queueEmptyCounter, '
             'time-out implication (!pred && enabled => empty) by truth table over the extracted predicate; both guard counters start at a constant zero in every queue constructor.',
     'note': COMMON_NOTE + 'Not decided: the weak-memory argument (seq_cst RMW + acquire load) that makes the ordering sufficient.',
     'technique': 'formula extraction + truth table, dominance/must-hold of scope guards over clang CFG, who-may-write rule',
@@ -58,8 +58,8 @@ CHECKS['C04'] = {
 }
 CHECKS['C20'] = {
     'text': 'The two clauses the statement names, over the whole library: no function instantiation reads and moves-from one object in unsequenced '
-            'operands, and none uses an object after it was moved from (sequenced, in a loop, through a captured reference or a caller-owned lvalue) (both operator() variants, all policy instantiations); ordered and hashed maps identify the same AnyId keys; no user-provided or implicit copy/move constructor leaves a scalar member '
-            'indeterminate (recursing into std::atomic etc., per -std level); plus the g++/clang++ compile matrix of the witness units and the '
+            'operands, and none uses an object after it was moved from (sequenced, in a loop, through a captured reference or a caller-owned lvalue) (both operator() variants, all policy instantiations); ordered and hashed maps identify the same AnyId keys; no listener, predicate or queued-argument destructor runs while a library mutex is held (the no-op mutex of SingleThreading would hide the self-deadlock); no user-provided or implicit copy/move constructor leaves a scalar member '
+            'indeterminate (recursing into std::atomic etc., per -std level); plus the g++/clang++ compile matrix of the witness units (a unit counts when configurations disagree about it) and the '
             'SingleThreading::Atomic/Mutex interface conventions (prefix ops return the new value, exchange the old).',
     'note': COMMON_NOTE + 'Not decided: code generation, optimisation levels, other compilers, trace equality itself. Defaulted default constructors are not judged (their effect depends on the use site).',
     'technique': 'unsequenced read/consume detection over AST, recursive default-initialisation analysis in the extractor, compile matrix, body pattern rules',
@@ -98,7 +98,7 @@ CHECKS['C15'] = {
     'text': 'Typestate of ScopedRemover (both specialisations) on every path: reset() dominates every overwrite of the record or target outside '
             'constructors; the destructor resets on every path; reset walks the whole record calling the target\'s remove, then clears; each add function '
             'records the handle returned by the matching add call under the record mutex on every normal path and returns it; remove erases the record '
-            'first and detaches only what was recorded, and searches and erases the record inside one critical section; the target list\'s add operations return a handle to the node they linked (pointer-program evaluation on every list shape up to length 3); move construction and swap transfer/exchange both fields.',
+            'first and detaches only what was recorded; records leave itemList only after their listeners were detached (a throwing removal must not orphan the rest); remove searches and erases the record inside one critical section; the target list\'s add operations return a handle to the node they linked (pointer-program evaluation on every list shape up to length 3); move construction and swap transfer/exchange both fields.',
     'note': COMMON_NOTE + 'Not decided: histories as such (follow from the per-method invariant recorded >= attached-through-me).',
     'technique': 'dominance/post-dominance rules over clang CFG, def-use of the returned handle, field-completeness from class facts',
 }
@@ -107,7 +107,7 @@ CHECKS['C05'] = {
     'text': 'Abstract interpretation (eppsa/slots.py) of the EMPTY/FULL slot protocol, list contents and element counts over every processing '
             'function of both queues, with helpers that receive slot lists interpreted at the call site: every get/clear/set meets the protocol, '
             'only FULL slots re-enter queueList and only EMPTY ones are recycled, `return true` needs a certainly consumed slot; positional rules '
-            '(enqueue at end, take at begin, put-back at begin); single take site outside loops and never after user code; queued dispatch passes '
+            '(enqueue at end, take at begin, put-back at begin); no FULL slot dies with a local list on a normal path (an event neither dispatched, taken, cleared nor handed back); single take site outside loops and never after user code; queued dispatch passes '
             'the slot\'s own event and stored arguments in index order; stored-by-value witness; no use-after-move on enqueue/take.',
     'note': COMMON_NOTE + 'Not decided: FIFO across arbitrary histories beyond the positional invariants; argument values. The interpretation joins paths (path-insensitive except for emptiness/cursor tests).',
     'technique': 'typestate abstract interpretation over clang CFG (slot states, list contents with cardinality, cursor split), dominance rules, use-after-move',
@@ -139,7 +139,7 @@ CHECKS['C16'] = {
 CHECKS['C18'] = {
     'text': 'Extracted formulas of AnyId operator==, operator< (compareEqual/compareLessThan overload selected per storage inlined) evaluated over all 13 '
             'weak orderings of digests x 13 of stored values (or no value comparison) of three ids: equivalence, strict weak order, incomparable <=> equal, '
-            'equal => same digest, value/empty storage clauses; std::hash reads only the digest; the converting constructor does not move from the value between digesting and storing it (by-value digester witness); hashed map selection witness. Exhaustive over orderings.',
+            'equal => same digest, value/empty storage clauses (any further relation the operators consult, e.g. a storage\'s type(), is enumerated as a weak ordering of its own); digests reach the comparisons without a value-changing conversion; std::hash reads only the digest; the converting constructor does not move from the value between digesting and storing it (by-value digester witness); hashed map selection witness. Exhaustive over orderings.',
     'note': COMMON_NOTE + 'Assumes the digester is a function and the stored type\'s ==/< are an equivalence / strict weak order consistent with each other.',
     'technique': 'boolean formula extraction with inlining, exhaustive enumeration of orderings (finite since values are touched only through comparisons)',
 }
